@@ -172,7 +172,12 @@ Cat == [idn |-> Rq("*IDN?", "", {}), describe |-> Rq("describe", "", {}),
         unknown |-> Rq("frobnicate", "m:p", {"m"}), c_request |-> Rq("request", "", {"m"}),
         c_request_x |-> Rq("request", "m:p", {"m"}), c_ident |-> Rq("_ident", "", {"m"}),
         c_help_d |-> Rq("help", "x", {"m"}), c_ident_x |-> Rq("_ident", "m:p", {"m"}),
-        nonascii_badjson |-> Rq("NONASCII", "m:p", {"d", "m", "n"})]
+        nonascii_badjson |-> Rq("NONASCII", "m:p", {"d", "m", "n"}),
+        \* data nested deeper than a recursive parser's limit (open = brackets never closed: broken JSON)
+        deep_list_open |-> Rq("change", "m:p", {"d", "m"}), deep_dict_open |-> Rq("change", "m:s", {"d", "m"}),
+        deep_list_50k |-> Rq("do", "m:cmd", {"d", "m"}), deep_dict_50k |-> Rq("change", "m:p", {"d", "m"}),
+        deep_list |-> Rq("change", "m:p", {}), deep_dict |-> Rq("logging", "m", {}),
+        huge_int |-> Rq("change", "m:p", {})]
 
 (* the replies the statement allows for a request (constructive form of Allowed) *)
 MkOut(action, spec, iserr, base, err) ==
